@@ -103,7 +103,7 @@ func init() {
 			"the reflection walk over exported ast.Vertex / []ast.Vertex fields in declaration order defines 'the tree' and slot order",
 			"source order of siblings is judged by StartPos on error-free parses only (positions of trees with errors may be partial)",
 		},
-		Plan:       func(p core.Params) int { return len(synthCases(p)) + p.Pick(6000, 300000) },
+		Plan:       func(p core.Params) int { return len(synthCases(p)) + p.Pick(40000, 300000) },
 		Exhaustive: func(p core.Params) bool { return false },
 		Run: func(c *core.Ctx, idx int) {
 			cases := synthCases(c.P)
